@@ -59,6 +59,7 @@ def solve(P, name, cons, bad, replay=None):
     s.add(*cons)
     P.stats.queries += 1
     r = s.check(bad)
+    P.stats.note_query(list(cons) + [bad], r)
     if r == z3.unsat:
         P.obligation(name, "holds", symbolic=True)
         return None
